@@ -204,7 +204,15 @@ def _query(g):
             uses_sub = True
             where.append({"t": "subselect", "q": {"select": ["o"], "distinct": g.chance(0.5), "where": [{"t": "bgp", "triples": [[V("o"), g.pick(PREDS), V("k")]]}]}})
         elif k == "group":
-            where.append({"t": "group", "p": [_bgp(g)]})
+            if g.chance(0.5):
+                # a group with its own MINUS: what it removes must not depend on what the neighbouring group binds
+                mv = g.choice(["s", "o", "x"])
+                where.append({"t": "group", "p": [{"t": "bgp", "triples": [[V("x"), g.pick(PREDS), V("y")]]}, {"t": "minus", "p": [{"t": "bgp", "triples": [[V(mv), g.pick(PREDS), V("mz")]]}]}]})
+                # pre-binding a variable that a nested MINUS mentions is not the same as joining a VALUES row afterwards (the
+                # nested group does not see the outer binding in the algebra): like a sub-query reusing the variable
+                outer_bgp_vars = [v for v in outer_bgp_vars if v != mv]
+            else:
+                where.append({"t": "group", "p": [_bgp(g)]})
         else:
             where.append(_bgp(g))
     q = {"select": "*", "distinct": g.chance(0.2), "where": where}
@@ -258,6 +266,13 @@ def _rewrites(g, q):
             w[i], w[i + 1] = w[i + 1], w[i]
             out.append(("swap-join", q4, None, False))
             break
+    # move a trailing group in front of the leading basic graph pattern (join is commutative)
+    q5 = copy.deepcopy(q)
+    w5 = q5["where"]
+    if len(w5) >= 2 and w5[0]["t"] == "bgp" and w5[-1]["t"] == "group" and all(e["t"] in ("bgp", "group", "union", "subselect") for e in w5):
+        w5.insert(0, {"t": "group", "p": [w5.pop(0)]})
+        w5.insert(0, w5.pop())
+        out.append(("swap-join", q5, None, False))
     # consistent renaming
     ren = {"s": "subj", "o": "x9", "x": "o2", "z": "s1", "p": "pp", "k": "kk", "w": "ww", "bv": "b1", "vv": "v1", "n": "cnt"}
     out.append(("rename-vars", copy.deepcopy(q), ren, False))
